@@ -16,6 +16,31 @@ def main():
     assert_repo()
     import openmdao.utils.relevance as rel
     from omv.checks import c24_relevance as C
+    if req.get('kind') == 'hist':
+        # a whole history (omv/gen/c24_hist.py) under the documented switch; step results serialised
+        from omv.gen import c24_hist as H
+        rng = random.Random(req['seed'])
+        s = H.gen_hist_spec(rng, req['cls'], opt=bool(req.get('opt')))
+        steps, info = H.gen_history(rng, s)
+        r = C._run_hist_twin(s, steps, norel=rel._no_relevance)
+        out = {'env_flag': bool(rel._no_relevance), 'exc': repr(r['exc'])[:300] if r['exc'] is not None else None,
+               'pruned': list(r['pruned']), 'nfail': r['nfail'], 'steps': []}
+        for x in (r['steps'] or []):
+            if not isinstance(x, dict):
+                out['steps'].append(None)
+            elif 'exc' in x:
+                out['steps'].append({'exc': type(x['exc']).__name__})
+            elif 'values' in x:
+                out['steps'].append({'values': {k: np.asarray(v).tolist() for k, v in x['values'].items()}})
+            elif 'J' in x:
+                out['steps'].append({'J': np.asarray(x['J']).tolist()})
+            elif 'driver' in x:
+                out['steps'].append({'driver': {'success': x['driver']['success'],
+                                                'x': {k: np.asarray(v).tolist() for k, v in x['driver']['x'].items()}}})
+            else:
+                out['steps'].append(None)
+        sys.stdout.write('\nC24-CHILD ' + json.dumps(out) + '\n')
+        return
     spec = C._gen_totals_spec(random.Random(req['seed']))
     plan = {'api': 'explicit', 'of': list(spec['of']), 'wrt': list(spec['wrt'])}
     # norel=None-like: leave the module flag exactly as the environment variable set it
